@@ -44,7 +44,9 @@ CLAIMED.update({
             "flags)} that the methods accept, the result satisfies Inv: rows empty, or a contiguous run of the source in which "
             "only the terminal fragments are shortened copies that kept their inner end, with start/end the scaffold "
             "coordinates of what is left; hence end-start+1 = total row length, no terminal gap; the what-if overhangs equal "
-            "the overhang after really discarding; bait overlaps are interval arithmetic. " + CORR,
+            "the overhang after really discarding; bait overlaps are interval arithmetic. C18_pipeline_Inv lifts it to real runs: "
+            "every result stored by remap_to_input (after all lookups, all resolver rounds and all cuts, for every Pretext map "
+            "over every input with rows >= 1 bp) satisfies Inv for the input scaffold it came from. " + CORR,
             NOTE + "Python object identity is modelled by row ids (source ids >= 0 distinct; trimmed copies -1/-2).",
             "Coq proof (invariant preserved by every operation, induction over the op list) + in-Coq correspondence after every op",
             "DESIGN.md 6/C18"),
@@ -142,7 +144,8 @@ CLAIMED.update({
             "all texel sizes and configurations: every gap row of every output scaffold is the configured join gap or a gap "
             "row (same length and type) of the input; on the fusion step: a fused scaffold never begins or ends with a gap, "
             "every fusion boundary carries the join gap, two fragments are directly adjacent only inside one piece, and in "
-            "left-over rows only if they were adjacent rows of the input (JoinGaps.v); C18 (no terminal gap in any overlap "
+            "left-over rows only if they were adjacent rows of the input (JoinGaps.v); C07_output_scaffolds_well_formed: every "
+            "output scaffold of every completed run, with no hypothesis at all, is non-empty and begins and ends with a fragment; C18 (no terminal gap in any overlap "
             "result after any edit sequence), C12 (lookups strip terminal gaps). That a kept input gap still separates the SAME "
             "two contigs, and the join-gap clause for non-neighbours on PretextView-model maps, are decided by the oracle that "
             "walks every output scaffold against the input adjacencies. The pinned commit's gapless left-over join is refuted "
@@ -174,6 +177,9 @@ CLAIMED.update({
             "completed run has pairwise distinct scaffold names when the generated namespaces are respected and no haplotype "
             "occurs (all hypotheses on the input and the map); C10_names_unique with haplotypes under two further conditions on "
             "the fused scaffolds; fusion keys pairwise distinct for every run; a repeated name is one of three named collisions; "
+            "multi-haplotype maps: a well-interleaved map gives one group per chromosome, homologues and their unlocs share the "
+            "number, ranking by first-haplotype sequence length (ties in map order), lengths of other haplotypes never matter, "
+            "A/B suffixes; "
             "rename_by_size = same names, objects in non-increasing length, stable; H_n / _unloc_n handed out "
             "without holes; chromosome groups numbered 1..n by non-increasing length (stable); single-haplotype grouping total "
             "and renaming names only; effect of naming on <Pretext name><suffix>; A,B,.. suffixes; output order total (C20) with "
@@ -188,7 +194,8 @@ CLAIMED.update({
     "C11": ("Coq theorems: the canonical junction identifies the unordered pair of facing contig ends (with sides, 1-bp contigs "
             "included); reading a junction from the other side gives the same canonical junction; the junction set of a scaffold "
             "equals that of its reverse; strand 0 is an error; list-based union/difference/intersection have their set meaning; "
-            "cuts = output fragments - input contigs for every completed run (from the C01 invariant); the pinned commit's "
+            "cuts = output fragments - input contigs for every completed run (from the C01 invariant); the reported "
+            "haplotig-removal count = the scaffolds of the single Haplotig assembly, each of which has rows (C11_haplotig_count); the pinned commit's "
             "encoding is refuted (fixed). " + PIPE + "Oracle recounts adjacencies independently.",
             NOTE + "The haplotig-removal count is read from the info.yaml text the real cli writes (recording file handle) and compared with the haplotig scaffolds written.",
             "Coq proof (case analysis on strands, order lemmas, counting invariant) + in-Coq correspondence + adjacency oracle", "DESIGN.md 6/C11"),
